@@ -26,7 +26,10 @@ def main(argv: list[str]) -> int:
             print(f"replay file names what no longer checks: {payload.get('no_longer_checks')}")
             print(json.dumps(payload.get("disagreements", payload.get("log")), indent=1)[:4000])
             return 1
-        r = mod.oracle(payload["case"])
+        import ast
+
+        case = ast.literal_eval(payload["case_py"]) if "case_py" in payload else payload["case"]
+        r = mod.oracle(case)
         if r is None:
             print(f"replay: property {prop} holds on this case")
             return 0
@@ -38,6 +41,8 @@ def main(argv: list[str]) -> int:
         return 2
     tier = os.environ.get("VERIF_TIER", tier) if False else tier
     seed = int(os.environ.get("VERIF_SEED", "20261001"))
+    for old in core.REPLAYS.glob(f"{prop}-*.json"):
+        old.unlink()
     ctx = core.Ctx(prop, tier, seed)
     ctx.module = mod
     ok, log = core.build_coq()
